@@ -24,6 +24,11 @@ CHECKS["C19"] = dict(cat="proof", technique="GF(2)-linear abstract interpretatio
     note="Trusted: rustc MIR construction, fact serialiser, Python integer arithmetic, IEEE-754 bit layout. Not decided: rounding at the top of an offset float range, integer-range arithmetic, unit length of normalised samples.",
     ref="§3 C19")
 
+CHECKS["C03"] = dict(cat="other", technique="constant-table rules on rustc-evaluated PLANES; finite-domain abstract interpretation of outcode/is_inside/status; MIR reachability/must-pass/provenance + polynomial-identity rules",
+    text="Decides: the frustum plane table is exactly the six half-spaces with distinct one-bit outcodes; ClipPlane::outcode/is_inside agree with it (abstract interpretation, the signed distance being the only symbol); ClipVert::new is the sole constructor and caches outcode(&pos) of the stored position; status() evaluated exhaustively on a two-plane outcode domain and generalised by its folds being bitwise-only; a Visible triangle is pushed unchanged exactly once with no clipping reachable, a Hidden one emits nothing; both scratch polygons are cleared on every path to the next triangle (batch independence); position and attribute are interpolated between the same endpoints in the same order with the same t, and t*(d1-d0) = -d0 as a polynomial identity; interpolated vertices go through ClipVert::new; the fan keeps (a, e[0], e[1]) order.",
+    note="Trusted: rustc const evaluation and MIR construction, fact serialiser, documented Vec semantics. Not decided: exactness of the clipped region under float rounding, attribute values.",
+    ref="§3 C03")
+
 NA = {}
 
 
